@@ -26,6 +26,7 @@ static long g_rd_entries[MAXR], g_wr_entries[MAXR];
 static long g_shared[MAXR];    /* written by writers only, non-atomically */
 static long g_shared_expect[MAXR];
 static int g_held[VH_MAX_STHR][MAXR]; /* 0 none, 1 read, 2 write (per thread) */
+static int g_rdn[VH_MAX_STHR][MAXR];  /* number of read holds of the thread (a reader may take the lock again) */
 static long g_badret[VH_MAX_STHR];
 
 static int vh_parse_decl(char *line)
@@ -115,6 +116,8 @@ static int do_lock(vh_tctx *c, int i, int write)
         else
             enter_read(i);
         g_held[t][i] = write ? 2 : 1;
+        if (!write)
+            g_rdn[t][i]++;
     }
     vh_note(VH_EV_OP_END, op, i, ret);
     if (c->kind == 'T' ? ret != ABT_ERR_RWLOCK : ret != ABT_SUCCESS)
@@ -130,7 +133,10 @@ static void do_unlock(vh_tctx *c, int i)
         leave_write(i);
     else
         leave_read(i);
-    g_held[t][i] = 0;
+    if (g_held[t][i] == 2 || --g_rdn[t][i] <= 0) {
+        g_rdn[t][i] = 0;
+        g_held[t][i] = 0;
+    }
     vh_note(VH_EV_OP_BEGIN, 22, i, 0);
     int ret = ABT_rwlock_unlock(g_rw[i]);
     vh_note(VH_EV_OP_END, 22, i, ret);
